@@ -27,7 +27,7 @@ PUBLIC = {
     'features/surf.py': ['surf', 'interest_points', 'descriptors', 'dense'],
     'features/lbp.py': ['lbp'],
     'features/zernike.py': ['zernike_moments'],
-    'interpolate.py': ['shift', 'zoom', 'spline_filter1d'],
+    'interpolate.py': ['shift', 'zoom', 'spline_filter1d', '_check_interpolate'],
     'thresholding.py': ['otsu', 'rc', 'bernsen'],
     'resize.py': ['imresize'],
 }
@@ -99,6 +99,9 @@ def atoms_of(test: ast.expr) -> list[str]:
     m = re.fullmatch(r'not np\.all\(np\.isfinite\((\w+)\)\)', src)
     if m:
         return [f'.notAllFinite {_q(m.group(1))}']
+    m = re.fullmatch(r'not (-?\d+) < (\w+) < (-?\d+)', src)
+    if m:                                                   # `not a < x < b`  ==  `x <= a or x >= b`
+        return [f'.intLe {_q(m.group(2))} ({m.group(1)})', f'.intGe {_q(m.group(2))} ({m.group(3)})']
     m = re.fullmatch(r'not 0 <= (\w+) < (\w+)', src)
     if m and COUNT_ALIAS.get(m.group(2)):
         return [f'.rankOutside {_q(m.group(1))} {_q(COUNT_ALIAS[m.group(2)])}']
@@ -577,7 +580,7 @@ def _exit_action(block: str, labels: dict):
 STOP_RE = re.compile(r'^(#define|try\b|for\b|while\b|do\b|switch\b|SAFE_SWITCH|HANDLE|\{|gil_release\b|return\b|Py_RETURN)')
 
 
-def native_guards(body: str, cname: str, file_funcs: dict = {}):
+def native_guards(body: str, cname: str, file_funcs: dict = {}, fsrc: str = ''):
     """(params, fmt, [(atom, action)]) of one entry point body (text between the outer braces, comments removed)"""
     labels = {m.group(1): body[m.end():] for m in re.finditer(r'\n\s*(\w+):\s*\n', body) if m.group(1) not in ('default', 'public', 'private')}
     m = re.search(r'PyArg_ParseTuple\(\s*args\s*,\s*"([^"]*)"\s*((?:,\s*&\w+\s*)*)\)', body)
@@ -611,12 +614,40 @@ def native_guards(body: str, cname: str, file_funcs: dict = {}):
             return True
         return bool(callee and callee in file_funcs and ERR_RE.search(file_funcs[callee]))
 
+    def inline_checker(a):
+        """`!f(x, y, …)` for a function of this file of the form `bool ok = (c1 && c2 && …); …; return ok;`: the negations of the
+        conjuncts `p > c`, `p <= c`, … read on the actual arguments, followed by the call itself (its remaining tests) as opaque"""
+        m = re.fullmatch(r'!(\w+)\(([\w, ]*)\)', a)
+        if not m or m.group(1) not in file_funcs:
+            return None
+        fbody = file_funcs[m.group(1)]
+        mm = re.search(r'bool\s+ok\s*=\s*\(([^;]*)\)\s*;', fbody)
+        sig = re.search(r'\b' + m.group(1) + r'\s*\(([^()]*)\)\s*\{', fsrc)
+        if not mm or not sig or not re.search(r'return\s+ok\s*;', fbody):
+            return None
+        formals = [x.strip().split()[-1] for x in sig.group(1).split(',')]
+        actuals = [x.strip() for x in m.group(2).split(',')]
+        if len(formals) != len(actuals):
+            return None
+        ren = dict(zip(formals, actuals))
+        neg = {'>': '<=', '>=': '<', '<': '>=', '<=': '>'}
+        out_ = []
+        for c in mm.group(1).split('&&'):
+            mc = re.fullmatch(r'\s*(\w+)\s*(<=|>=|<|>)\s*(-?\d+)\s*', c)
+            if not mc or mc.group(1) not in ren:
+                return None
+            out_.append(f'{ren[mc.group(1)]} {neg[mc.group(2)]} {mc.group(3)}')
+        return out_ + [a]
+
     def emit(cond, action, path):
+        parts = []
         for a in split_or(' '.join(cond.split())):
+            parts += [(x, a) for x in (inline_checker(a) or [a])]
+        for a, origin in parts:
             for k, v in ctx['alias'].items():
                 if v[0] == 'id':
                     a = re.sub(r'\b' + k + r'\b', v[1], a)
-            if action == 3 and callee_sets_error(a):
+            if action == 3 and callee_sets_error(origin):
                 action_a = 5
             else:
                 action_a = action
@@ -728,7 +759,7 @@ def extract_native(repo: Path):
             body = src[m.end():end - 1]
             if cname not in methods:
                 raise TranslationError(f'{p.name}: {cname} is not in the method table')
-            res.append((p.stem, methods[cname], cname) + native_guards(body, f'{p.name}:{cname}', file_funcs))
+            res.append((p.stem, methods[cname], cname) + native_guards(body, f'{p.name}:{cname}', file_funcs, src))
     return res
 
 
@@ -810,10 +841,19 @@ def generate(repo: Path, outdir: Path) -> dict:
     lines.append('def guardActionTable : List (String × Nat × List Nat) := [')
     lines.append(',\n'.join(f'  ({_q(k)}, {ident}.length, [{", ".join(map(str, acts))}])' for k, ident, acts in actions))
     lines.append(']')
+    # wrapper -> native argument links (round 3)
+    from . import links as _links
+    sites, ltables, flows = _links.extract(repo, {f'{mod}.{py}': params for mod, py, cname, params, fmt, atoms, ids in natives})
+    lines += _links.lean_lines(sites, ltables, flows)
+    link_kinds = {}
+    for _, _, _, ls in sites:
+        for _, l in ls:
+            link_kinds[l[0]] = link_kinds.get(l[0], 0) + 1
     lines += ['', 'end Mahotas.Generated', '']
     changed = _write_if_changed(outdir / 'Guards.lean', '\n'.join(lines))
     bare = [k for k, _, acts in actions if 3 in acts]
     return dict(guards_changed=changed, guard_wrappers=len(table), guard_atoms_interpreted=ninterp, guard_atoms_opaque=nopaque,
+                link_sites=len(sites), link_kinds=link_kinds,
                 native_entry_points=len(ntable), native_atoms_interpreted=n_interp, native_atoms_opaque_or_parse=n_opaque,
                 bare_null_exits=bare)
 
